@@ -382,3 +382,10 @@ Inductive reach1 (cfg : config) : state -> Prop :=
 | reach1_init : reach1 cfg init
 | reach1_step st ev st' :
     reach1 cfg st -> single_write ev -> step cfg st ev = Some st' -> sane cfg st' -> reach1 cfg st'.
+
+(* session.seq set back to 0 (what a redial closure that re-initialised the counter would do;
+   peer.go's redial keeps session.seq): NOT a step of the system, used by the refutation *)
+Definition reset_count (st : state) (s : side) : state :=
+  let e := ep_of st s in
+  with_ep st s (mkEp 0 (e_pending e) (e_outbox e) (e_lock e) (e_writers e) (e_unlocking e)
+                     (e_done e) (e_seen e) (e_issued e) (e_sent e) (e_broken e)).
